@@ -219,6 +219,14 @@ func c02Gen(rt *rapid.T) wProg {
 				p.Ops = append(p.Ops, wOp{K: "sub", S: k, T: "g0", A: gPick(rt, []string{"JRP", "JRP", "JR"}, "now")}, wOp{K: "fault", N: 1, A: "SubsUpdate"},
 					wOp{K: "set", S: k, T: "g0", A: "mode", B: "JRWP"}, wOp{K: "pub", S: k, T: "g0"})
 			}
+		case y >= 28 && y < 31 && !p.Cfg.Root && gPct(rt, 60):
+			// the store takes milliseconds; while it is deleting the group for the owner, a member's publish arrives
+			if k := gInt(rt, 1, len(p.Sess)-1, "late"); p.Sess[k] != 0 {
+				p.Ops = append(p.Ops, wOp{K: "sub", S: 0, T: "g0"}, wOp{K: "sub", S: k, T: "g0"}, wOp{K: "lat", R: [][2]int{{5000, 0}}},
+					wOp{K: "par", Par: []wOp{{K: "del", S: 0, T: "g0", A: "topic", F: gPct(rt, 50)}, {K: "pub", S: k, T: "g0", AtUs: gPick(rt, []int{1000, 2000, 4000}, "lateus")}}},
+					wOp{K: "lat"})
+				i = n // the group is gone
+			}
 		case y >= 25 && y < 28 && gPct(rt, 50):
 			// the owner removes an attached member and the store fails at that deletion: the member stays
 			if k := gInt(rt, 1, len(p.Sess)-1, "kept"); p.Sess[k] != 0 {
@@ -477,6 +485,21 @@ func (o *c03Obs) After(w *wWorld, st *wStep) *kit.Viol {
 			for _, f := range frames {
 				if _, was := o.preAtt[sess][w.routeOfName(f.topicOf(), w.sess[sess].user)]; f.Ctrl != nil && f.Ctrl.Code == 205 && was {
 					return kit.V("attached-session-evicted-by-idle-timer", "while %d ms passed without any request session %d was detached from %s (%s): its publishes will be refused although it attached and never left", st.Op.N, sess, f.Ctrl.Topic, wJSON(f))
+				}
+			}
+		}
+	}
+	if st.Op.K == "par" {
+		// a publish which reached the server after the hub had started to delete the topic (the owner's
+		// request was acknowledged with an earlier server time) met a topic which is being deleted
+		for _, d := range st.Sub {
+			dc := d.reply()
+			if d.Op.K != "del" || d.Op.A != "topic" || d.Skipped || dc == nil || dc.Code != 200 {
+				continue
+			}
+			for _, s := range st.Sub {
+				if c := s.reply(); s.Op.K == "pub" && !s.Skipped && s.Route == d.Route && c != nil && c.Code == 202 && c.Timestamp.After(dc.Timestamp) {
+					return kit.V("accepted-while-being-deleted", "publish %s on %s was accepted at %s; the topic's deletion (acknowledged) had begun at %s", s.Token, s.Route, c.Timestamp.Format("15:04:05.000"), dc.Timestamp.Format("15:04:05.000"))
 				}
 			}
 		}
